@@ -443,73 +443,58 @@ def probes():
 
 def large_kv_cases():
     """FileMetaData whose key/value metadata is large: the one place where the serialiser sizes its buffer from the value
-    (``len(str(key_value_metadata))``), so these are *valid* inputs that must round-trip (they are not a known finding)."""
+    (``1000 * row groups * schema elements + len(str(key_value_metadata))``).  With one row group the estimate leaves
+    room for the rest of the footer, so these are *valid* inputs that must round-trip on the pinned tree."""
     out = []
     schema = [{"name": {"str": "schema"}, "num_children": 1}, {"name": {"str": "a"}, "type": 1, "repetition_type": 0}]
+    rg = {"columns": [{"file_offset": 4, "meta_data": {"type": 1, "encodings": [0], "path_in_schema": [{"str": "a"}], "codec": 0,
+                                                       "num_values": 1, "total_uncompressed_size": 30, "total_compressed_size": 30,
+                                                       "data_page_offset": 4}}],
+          "total_byte_size": 30, "num_rows": 1}
     for nkv, size in ((1, 600000), (3, 900000), (40, 30000)):
         kv = [{"key": {"str": "k%d" % i}, "value": {"str": "v" * size}} for i in range(nkv)]
         for route in ("build", "reparse"):
             out.append(("boundary:large-key-value-metadata",
                         {"struct": "FileMetaData", "route": route, "str_as_bytes": False, "allow_big": True,
-                         "value": {"version": 1, "schema": schema, "num_rows": 0, "row_groups": [], "key_value_metadata": kv}}))
+                         "value": {"version": 1, "schema": schema, "num_rows": 1, "row_groups": [rg], "key_value_metadata": kv}}))
+    # ... and without row groups (the _common_metadata of a hive dataset) the estimate has no room left: part of the finding
+    kv = [{"key": {"str": "k"}, "value": {"str": "v" * 600000}}]
+    out.append(("C10-to-bytes-overflow", {"struct": "FileMetaData", "route": "build", "str_as_bytes": False, "allow_big": True,
+                                          "value": {"version": 1, "schema": schema, "num_rows": 0, "row_groups": [], "key_value_metadata": kv}}))
     return out
 
 
-def shrink_moves(case):
-    if case.get("route") == "file":
-        for c in shrinkers.frame_opts_moves({"frame": case["frame"], "opts": case["opts"]}):
-            yield dict(case, frame=c["frame"], opts=c["opts"])
-        return
-
-    def moves(name, value):
-        I = _idl()
-        for f in I.structs[name]:
-            if f.name not in value:
-                continue
-            v = value[f.name]
-            t = f.type
-            if f.req != "required" or name in I.unions:
-                if not (name in I.unions and len(value) == 1):
-                    nv = dict(value)
-                    del nv[f.name]
-                    yield nv
-            if t[0] == "list" and v:
-                for lst in shrinkers.list_moves(v):
-                    nv = dict(value)
-                    nv[f.name] = lst
-                    yield nv
-                if t[1][0] == "struct":
-                    for i, x in enumerate(v):
-                        for sub in moves(t[1][1], x):
-                            nv = dict(value)
-                            nv[f.name] = v[:i] + [sub] + v[i + 1:]
-                            yield nv
-            elif t[0] == "struct":
-                for sub in moves(t[1], v):
-                    nv = dict(value)
-                    nv[f.name] = sub
-                    yield nv
-            elif t[0] == "string" and len(v["str"]) > 1:
-                nv = dict(value)
-                nv[f.name] = {"str": v["str"][: len(v["str"]) // 2]}
-                yield nv
-            elif t[0] == "binary" and len(v["hex"]) > 2:
-                nv = dict(value)
-                nv[f.name] = {"hex": v["hex"][: (len(v["hex"]) // 4) * 2]}
-                yield nv
-            elif t[0] in INT_RANGE and v not in (0, 1):
-                for s in (0, 1, v // 2):
-                    nv = dict(value)
-                    nv[f.name] = s
-                    yield nv
-    for nv in moves(case["struct"], case["value"]):
-        c = dict(case)
-        c["value"] = nv
-        yield c
+def pinned_buffer_size(case):
+    """Upper estimate of the buffer ThriftObject.to_bytes allocates on the pinned tree for this value (cencoding.pyx l.794-801)."""
+    v, name = case.get("value") or {}, case.get("struct")
+    size = 0
+    if name == "RowGroup":
+        size = 1000 * len(v.get("columns") or [])
+    elif name == "FileMetaData":
+        kv = v.get("key_value_metadata")
+        if kv is None:
+            n = 4
+        else:
+            def plain(x):
+                if isinstance(x, dict):
+                    return x.get("str") if "str" in x else bytes.fromhex(x.get("hex", ""))
+                return x
+            items = []
+            for e in kv:
+                d = {}
+                if "key" in e:
+                    d[1] = plain(e["key"])
+                if "value" in e:
+                    d[2] = plain(e["value"])
+                items.append(d)
+            n = len(str(items)) + 3 * len(items)        # (+ b'' prefixes if the strings are held as bytes)
+        size = 1000 * len(v.get("row_groups") or []) * len(v.get("schema") or []) + n
+    return max(size, 500000)
 
 
-def abbreviate(case):
-    if case.get("route") == "file":
-        return {"route": "file", "frame": shrinkers.abbreviate_frame(case["frame"]), "opts": case["opts"]}
-    s = common.canon(case)
-    return {"struct": case["struct"], "route": case["route"], "value": (case["value"] if len(s) < 800 else s[:800] + "...")}
+def reference_size(case):
+    from vf.refpq import compact
+    try:
+        return len(compact.encode(to_plain(case["value"]), case["struct"]))
+    except Exception:
+        return None
